@@ -346,23 +346,37 @@ def u_optimiser(ctx):
         which = ["ppo", "a2c", "reinforce"][i % 3]
         buf, d = _gen_buffer(ctx, env, pol, N, "huge" if i % 2 else "normal", i)
         params = eqx.filter(pol, eqx.is_inexact_array)
+        # every coefficient is *requested* through the constructor with a value of its own (no two equal, none at its
+        # default); the reference below uses the requested numbers, not what the algorithm object says it stored
+        vfc, entc = float(ctx.rng.choice([0.05, 0.25, 0.9])), float(ctx.rng.choice([0.0, 0.013, 0.07]))
+        clipc, cvl = float(ctx.rng.choice([0.1, 0.3])), bool(i % 4 == 1)
         if which == "ppo":
             algo = PPO(num_envs=1, num_steps=N, num_batches=1, num_epochs=1, max_grad_norm=mgn, learning_rate=lr,
-                       normalize_advantages=False)
-            (_, _), grads = PPO.ppo_loss_grad(pol, buf, False, algo.clip_coefficient, algo.clip_value_loss,
-                                              algo.value_loss_coefficient, algo.entropy_loss_coefficient)
+                       normalize_advantages=False, clip_coefficient=clipc, clip_value_loss=cvl,
+                       value_loss_coefficient=vfc, entropy_loss_coefficient=entc)
+            (ref_loss, _), grads = PPO.ppo_loss_grad(pol, buf, False, clipc, cvl, vfc, entc)
             opt_state = algo.optimizer.init(params)
-            new_pol, new_opt, _ = eqx.filter_jit(algo.train_batch)(pol, opt_state, buf)
+            new_pol, new_opt, st_ = eqx.filter_jit(algo.train_batch)(pol, opt_state, buf)
+            got_loss = float(st_.total_loss)
         elif which == "a2c":
-            algo = A2C(num_envs=1, num_steps=N, max_grad_norm=mgn, learning_rate=lr, normalize_advantages=False)
-            (_, _), grads = A2C.a2c_loss_grad(pol, buf, False, algo.value_loss_coefficient, algo.entropy_loss_coefficient)
+            algo = A2C(num_envs=1, num_steps=N, max_grad_norm=mgn, learning_rate=lr, normalize_advantages=False,
+                       value_loss_coefficient=vfc, entropy_loss_coefficient=entc)
+            (ref_loss, _), grads = A2C.a2c_loss_grad(pol, buf, False, vfc, entc)
             opt_state = algo.optimizer.init(params)
-            new_pol, new_opt, _ = eqx.filter_jit(algo.train)(pol, opt_state, buf, key=ctx.key(i))
+            new_pol, new_opt, lg_ = eqx.filter_jit(algo.train)(pol, opt_state, buf, key=ctx.key(i))
+            got_loss = float(lg_["loss"])
         else:
-            algo = REINFORCE(num_envs=1, num_steps=N, max_grad_norm=mgn, learning_rate=lr, normalize_advantages=False)
-            (_, _), grads = REINFORCE.reinforce_loss_grad(pol, buf, False, algo.value_loss_coefficient)
+            algo = REINFORCE(num_envs=1, num_steps=N, max_grad_norm=mgn, learning_rate=lr, normalize_advantages=False,
+                             value_loss_coefficient=vfc)
+            (ref_loss, _), grads = REINFORCE.reinforce_loss_grad(pol, buf, False, vfc)
             opt_state = algo.optimizer.init(params)
-            new_pol, new_opt, _ = eqx.filter_jit(algo.train)(pol, opt_state, buf, key=ctx.key(i))
+            new_pol, new_opt, lg_ = eqx.filter_jit(algo.train)(pol, opt_state, buf, key=ctx.key(i))
+            got_loss = float(lg_["loss"])
+        ctx.monitor("train_losses_compared_with_requested_coefficients")
+        if abs(got_loss - float(ref_loss)) > 1e-5 + 2e-4 * abs(float(ref_loss)):
+            ctx.violation("training-loss-not-the-objective-with-the-requested-coefficients",
+                          {"algo": which, "got": got_loss, "want": float(ref_loss), "value_loss_coefficient": vfc,
+                           "entropy_loss_coefficient": entc, "clip_coefficient": clipc, "clip_value_loss": cvl, "max_grad_norm": mgn})
         gn = _gnorm(grads)
         ref_opt = optax.chain(optax.clip_by_global_norm(mgn), optax.adam(lr))
         upd, ref_state = ref_opt.update(grads, ref_opt.init(params), params)
